@@ -714,7 +714,8 @@ def r2_eval_areas(run: Run, src):
     up to and including the second corner, row-major, whole columns over every stored row, straight ranges in order"""
     from ..finite import const_av, Unknown, AbsRaise
     ex = src.cls('Excel')
-    data = [[[1, 2, 3], [4, 5, 6], [7, 8, 9]], [[10]], [[1, 2, 3], [4, 5, None], [7, None, None], [None, None, None]]]
+    data = [[[1, 2, 3], [4, 5, 6], [7, 8, 9]], [[10]], [[1, 2, 3], [4, 5, None], [7, None, None], [None, None, None]],
+            [[1, 2, 3], [4], [7, 8, 9]]]
 
     def values(v):
         if v.kind == 'obj':
@@ -729,7 +730,11 @@ def r2_eval_areas(run: Run, src):
              ('get_matrix', (2, 0, None), (2, 2, None), [[1, 2, 3], [4, 5, None], [7, None, None], [None, None, None]], 'A:C on a ragged sheet'),
              ('get_matrix', (2, 2, None), (2, 2, None), [[3], [None], [None], [None]], 'C:C on a ragged sheet'),
              ('get_range', (2, 1, None), (2, 1, None), [2, 5, None, None], 'B:B on a ragged sheet as a range'),
-             ('get_range', (2, 0, None), (2, 0, None), [1, 4, 7, None], 'A:A on a ragged sheet as a range')]
+             ('get_range', (2, 0, None), (2, 0, None), [1, 4, 7, None], 'A:A on a ragged sheet as a range'),
+             # rows stored with different lengths: the cells a short row does not have are blank cells of the area
+             ('get_matrix', (3, 0, 0), (3, 2, 2), [[1, 2, 3], [4, None, None], [7, 8, 9]], 'A1:C3 across a short row'),
+             ('get_matrix', (3, 1, 0), (3, 2, 1), [[2, 3], [None, None]], 'B1:C2 across a short row'),
+             ('get_range', (3, 2, 0), (3, 2, 2), [3, None, 9], 'C1:C3 across a short row')]
     for fn_name, a, b, want, what in cases:
         if fn_name not in ex.methods:
             raise AnalysisError('C02.R2', f'Excel.{fn_name} not found')
